@@ -9,7 +9,8 @@ cern_polygamma is replaced by its contract (contracts/harmonic_spec.py: the poly
   (3) cache transparency (representation invariant: every slot is NaN or its specification value):  for each of the 31 keys, each parity flag, and EVERY
       pre-state that satisfies the invariant on the slots the lookup can read (all subsets), cache.get returns the specification value (= direct evaluation,
       e.g. S1ph = S1((N+1)/2), S1p2 = S1(N+2), g3p2 = g3(N+2, S1(N+2))), fills only slots with their specification values and touches no other slot.
-      Hence any lookup order returns the values of direct evaluation (induction over the sequence of lookups).
+      Hence any lookup order returns the values of direct evaluation (induction over the sequence of lookups).  With the default flag (None, the sign is (-1)^N itself) the
+      lookup on a fresh cache equals the direct evaluation for every key at N = 1, 2, 3, 4, 5, 8.
 Not claimed: the nested sums S21, S31, S211, S-21, ... against their definitions (they contain the numerically approximated Mellin transforms g3..g22),
 the Mellin transforms against their defining integrals, and the numerical accuracy of cern_polygamma itself.  Real-analyticity is C26.
 """
@@ -107,7 +108,7 @@ def run(chk):
             chk.eq(f"C24.symmetry_factor[{flag}]", pgm.symmetry_factor(N, flag), want, fn="ekore.harmonics.polygamma:symmetry_factor", goal="+1 for the singlet-like (even) continuation, -1 otherwise", replay=rp)
 
         # ---- (3) cache transparency ---------------------------------------------------------------------------------------------------------------------
-        def spec(flag):
+        def spec(flag, N=N):
             s = {}
             s[c.S1], s[c.S2], s[c.S3], s[c.S4], s[c.S5] = w1.S1(N), w2.S2(N), w3.S3(N), w4.S4(N), w5.S5(N)
             s[c.S1h], s[c.S2h], s[c.S3h] = w1.S1(N / 2), w2.S2(N / 2), w3.S3(N / 2)
@@ -176,6 +177,15 @@ def run(chk):
             chk.configs += n_states
 
         chk.parallel(list(tasks()), worker)
+        # the default flag (None: the sign is (-1)^N itself) at positive integers: a lookup on a fresh cache returns the direct-evaluation value of every key
+        for Nv in (1, 2, 3, 4, 5, 8):
+            SPECN = spec(None, Q(Nv))
+            lhs, rhs = [], []
+            for key in range(c.CACHE_SIZE):
+                lhs.append(c.get(key, c.reset(), Q(Nv), None))
+                rhs.append(SPECN[key])
+            chk.eq_array(f"C24.cache[default flag,N={Nv}].returns_specification", np.array(lhs, dtype=object), np.array(rhs, dtype=object), fn="ekore.harmonics.cache:get", replay=rp,
+                         goal="is_singlet=None at a positive integer: get(key) on a fresh cache == direct evaluation with the same flag, for each of the 31 keys")
     finally:
         undo()
     chk.extra["exhaustive"] = True
